@@ -181,6 +181,10 @@ def copy(cks, size, thr, chunk):
     """C01.6: copy, single or multipart; destination assembled from the decoded CopySourceRanges"""
     extra = {'ChecksumAlgorithm': 'SHA256'} if cks else None
     c = H.run_copy(size, thr, chunk, extra_args=extra)
+    return _copy_oracle(c, size, thr, cks)
+
+
+def _copy_oracle(c, size, thr, cks=False):
     st, val = c.outcome
     if st != 'ok':
         return 'copy: future not successful (%s)' % st
